@@ -170,3 +170,16 @@ claim('C34', 'other',
       'static analysis (narrow): two-sided interval validation of Time by path enumeration, folded unit constants, epoch-offset agreement, the min/max '
       'UUID literals folded through uuid_from_time\'s own packing expressions against the LOWEST/HIGHEST constants, Date print/parse format. Calendar and '
       'float arithmetic are not decided', 'path enumeration + constant folding of packing expressions', _TB, 'DESIGN.md section 5 C34')
+
+claim('C35', 'other',
+      'static analysis (narrow): opposite-operator rule on the static-only flags, name-kind agreement (db_field_name) at every statement/condition site, '
+      'truth table of the deleted predicate over its three boolean atoms, save/update/delete flow guards. That the emitted CQL leaves the row equal to the '
+      'instance is not decided', 'sibling-arm operator agreement + name-kind dataflow + finite truth table', _TB, 'DESIGN.md section 5 C35')
+claim('C37', 'other',
+      'static analysis: finite-domain abstract interpretation of every container clause (render / bind / count) over all None-empty-nonempty valuations '
+      'and comparison of the three results; renumber/bind/render list agreement per statement class along the super() chain (each list once); adder and '
+      'batch context arithmetic', 'abstract interpretation over a three-valued domain + MRO chain analysis', _TB, 'DESIGN.md section 5 C37')
+claim('C38', 'other',
+      'static analysis (narrow): construction of the key serializer from the partition-key columns in key order, placement of key values by index, and '
+      'the attach guard (is None, not truthiness). Equality with Cassandra\'s encoding for all values is C01/C02',
+      'syntax-directed dataflow inside the metaclass body + guard shape', _TB, 'DESIGN.md section 5 C38')
